@@ -1,6 +1,6 @@
 CONFIG = {
     "level": "proof",
-    "level_text": "PARTIAL. Lean theorems (kernel-checked, no sorry/axioms) about a state-machine model of the ABCI multiplexer's proposal cache, parameterised by an arbitrary deterministic block executor: for every sequence of ABCI calls CometBFT may issue for a height (any PrepareProposal/ProcessProposal of arbitrary candidate blocks in arbitrary rounds, restarts anywhere outside a completed delivery, aborted deliveries, CheckTx/EstimateGas/queries anywhere) the committed state, the BeginBlock/DeliverTx/EndBlock results and the application hash returned for the decided block are exactly the executor's, whether served from the cache or recomputed, and the node panics on exactly the blocks the executor rejects (mux_path_independent); by induction over heights all replicas agree at every height for all assignments of execution path (replicas_agree); the block-metadata transaction binds state root and events root (meta_binds_root); isEqual is sound for the fields it compares and the one execution-relevant field it does not compare (last-commit info) is an explicit environment hypothesis shown necessary by a witness (commit_info_hypothesis_necessary). Order independence: lemmas over List.Perm for every fold pattern found at a map-range site (sum, grouped sum, per-key write, set insert, delete by predicate, emission as a set, collect-then-sort, all/any checks, first-wins dedup sum, argmax under majority). Ties: (i) regenerated map-range site ledger (go/types) equal, by `decide`, to a hand-written expectation table mapping each of the 74 sites to its lemma or off-chain reason; (i') regenerated source facts of the cache (isEqual's parameters and conditions, BlockInfo fields, cache guards, system-transaction guards; 24 lists) pinned by `rfl` next to the model definitions they justify; (ii) correspondence: real multiplexers with the 8 real applications driven through generated call sequences, every response checked against the Lean model instantiated with the executor outputs observed on a cache-free oracle; (iii) twin-replica oracle on the implementation (AppHash, per-tx results, validator updates as a set, across paths, restarts from disk, both NodeDB backends, concurrent CheckTx, pruner, repeated runs).",
+    "level_text": "PARTIAL. Lean theorems (kernel-checked, no sorry/axioms) about a state-machine model of the ABCI multiplexer's proposal cache, parameterised by an arbitrary deterministic block executor: for every sequence of ABCI calls CometBFT may issue for a height (any PrepareProposal/ProcessProposal of arbitrary candidate blocks in arbitrary rounds, restarts anywhere outside a completed delivery, aborted deliveries, CheckTx/EstimateGas/queries anywhere) the committed state, the BeginBlock/DeliverTx/EndBlock results and the application hash returned for the decided block are exactly the executor's, whether served from the cache or recomputed, and the node panics on exactly the blocks the executor rejects (mux_path_independent); by induction over heights all replicas agree at every height for all assignments of execution path (replicas_agree); the block-metadata transaction binds state root and events root (meta_binds_root); isEqual is sound and compares every input of block execution, including the last-commit info (isEqual_sound, isEqual_compares_commit_info; the rule before /repo 47a524f, which did not, is kept as the labelled historical witness prefix_rule_commit_info_gap). Order independence: lemmas over List.Perm for every fold pattern found at a map-range site (sum, grouped sum, per-key write, set insert, delete by predicate, emission as a set, collect-then-sort, all/any checks, first-wins dedup sum, argmax under majority). Ties: (i) regenerated map-range site ledger (go/types) equal, by `decide`, to a hand-written expectation table mapping each of the 74 sites to its lemma or off-chain reason; (i') regenerated source facts of the cache (isEqual's parameters and conditions, BlockInfo fields, cache guards, system-transaction guards; 24 lists) pinned by `rfl` next to the model definitions they justify; (ii) correspondence: real multiplexers with the 8 real applications driven through generated call sequences, every response checked against the Lean model instantiated with the executor outputs observed on a cache-free oracle; (iii) twin-replica oracle on the implementation (AppHash, per-tx results, validator updates as a set, across paths, restarts from disk, both NodeDB backends, concurrent CheckTx, pruner, repeated runs).",
     "technique": "Lean 4 proof over a reference model of the proposal cache + List.Perm order-independence lemmas; regenerated map-range ledger (go/types) discharged by decide; witness-checking correspondence and twin-replica differential runs on the real multiplexer",
     "models": ["mux"],
     "lean_sources": ["OasisModel/Mux", "OasisModel/Proto.lean", "OasisProofs/Helpers/Mux.lean"],
@@ -14,6 +14,13 @@ CONFIG = {
          "quick": ["-cases", "12", "-heights", "12", "-reps", "2"],
          "thorough": ["-cases", "150", "-heights", "20", "-reps", "2"],
          "timeout_quick": 1200, "timeout_thorough": 6000},
+        # genesis variant with a durable stake tie at the validator election cut-off (MaxValidators = 3,
+        # entities 1 and 2 tied, no fees / proposer / election rewards): makes the election depend on the
+        # order in which entity addresses are collected, so an unsorted map range there diverges
+        {"name": "muxdrv",
+         "quick": ["-tie", "-cases", "4", "-heights", "12", "-reps", "2"],
+         "thorough": ["-tie", "-cases", "40", "-heights", "16", "-reps", "2"],
+         "timeout_quick": 1200, "timeout_thorough": 6000},
     ],
     "trusted_base": [
         "Lean 4.33 kernel (axioms per theorem listed under coverage.axioms; at most propext, Classical.choice, Quot.sound)",
@@ -24,7 +31,6 @@ CONFIG = {
         "modelled, not verified: the applications are an arbitrary function `Apps` (their determinism is what the map-range ledger, the other properties and the twin-replica runs address); CometBFT is the grammar of calls; `restart` is 'state as of the last Commit'",
     ],
     "assumptions": [
-        "Env.commitInfo: a block offered to ProcessProposal that equals a block this node prepared in header and evidence carries the last-commit info it was prepared with (isEqual compares header, transactions and misbehaviour only). Necessary: commit_info_hypothesis_necessary; reproduced on the real multiplexer by muxdrv (counter finding:commit-info-gap-accepted-stale)",
         "Env.hinj / Env.hnz: the block hash identifies the block and is never empty; ProcessProposal/BeginBlock carry the hash of the block they carry",
         "Env.selfProposer: PrepareProposal is called with the node's own consensus address as proposer",
         "not modelled: upgrade.ErrStopForUpgrade re-panics, the MaxTxBytes prefix cut in PrepareProposal, consensus MaxTxSize smaller than the metadata transaction, state sync, InitChain",
